@@ -353,9 +353,154 @@ std::string run_case(Src& s, CaseInfo& ci)
   return check_case(gs, bufs, o, ci, &s);
 }
 
+
+// Section sizes of a saved image: header (4 magic, 1 version, 1 number of sections) and one 12-byte entry
+// {u64 offset, u32 size} per section.
+static std::vector<uint32_t> image_sections(const std::string& img)
+{
+  std::vector<uint32_t> v;
+  if (img.size() < 6)
+    return v;
+  unsigned n = (unsigned char) img[5];
+  for (unsigned i = 0; i < n && 6 + 12 * (i + 1) <= img.size(); i++)
+  {
+    uint32_t sz;
+    memcpy(&sz, img.data() + 6 + 12 * i + 8, 4);
+    v.push_back(sz);
+  }
+  return v;
+}
+
+// A rule set padded (meta strings) so that the string-pool section of the saved image is exactly `target` bytes:
+// section sizes at exact multiples of the 64 KiB / 4 KiB / 1 KiB units in which a reader or writer may work.
+// The image goes through memory, a pipe fed in chunks and a real file (fread-backed), and must load and scan
+// like the original every time.
+static std::string sized_pool_case(CaseInfo& ci, uint32_t target, int delta)
+{
+  ci.desc = strf("rule set padded with meta strings until the string-pool section of the saved image is %u%+d bytes; "
+                 "saved and loaded through memory, a chunked pipe and a file",
+                 target, delta);
+  uint32_t want = target + delta;
+  std::vector<size_t> pads = {8};
+  std::string image;
+  Rules R;
+  int pool = -1;
+  auto source = [&]() {
+    std::string s;
+    for (size_t i = 0; i < pads.size(); i++)
+      s += strf("rule pad_%zu { meta: m = \"%03zu", i, i) + std::string(pads[i], 'p') +
+           strf("\" strings: $a = \"needle%zu\" condition: $a or filesize == %zu }\n", i % 3, i);
+    return s;
+  };
+  auto build = [&](std::vector<uint32_t>& secs) -> std::string {
+    ys_rules_free(R.r);
+    R.r = nullptr;
+    CompileResult cr = compile_simple(source(), R);
+    if (cr.errors || cr.rc)
+      return "padded rule set rejected: " + cr.diag;
+    uint8_t* img = nullptr;
+    size_t len = 0;
+    int rc = ys_rules_save_mem(R.r, &img, &len);
+    if (rc != 0)
+      return strf("yr_rules_save_stream returned %d", rc);
+    image.assign((const char*) img, len);
+    ys_free(img);
+    secs = image_sections(image);
+    return "";
+  };
+  std::vector<uint32_t> s0, s1;
+  std::string e = build(s0);
+  if (!e.empty())
+    return e;
+  pads[0] = 9;
+  e = build(s1);
+  if (!e.empty())
+    return e;
+  for (size_t i = 0; i < s0.size() && i < s1.size(); i++)
+    if (s1[i] == s0[i] + 1)
+      pool = (int) i;
+  if (pool < 0)
+    return "harness: no section of the image grows by one byte with the meta string";
+  std::vector<uint32_t> secs = s1;
+  for (int iter = 0; iter < 400 && secs[pool] != want; iter++)
+  {
+    if (secs[pool] > want)
+      return strf("harness: overshot the target section size (%u > %u)", secs[pool], want);
+    uint32_t gap = want - secs[pool];
+    if (gap > 4000 + 200)
+      pads.push_back(3900);
+    else if (pads.back() + gap < 7900)
+      pads.back() += gap;
+    else
+      pads.push_back(8);
+    e = build(secs);
+    if (!e.empty())
+      return e;
+  }
+  if (secs[pool] != want)
+    return strf("harness: could not reach the target section size (%u, wanted %u)", secs[pool], want);
+  std::vector<bytes> bufs = {"", "xx needle1 yy", "needle0needle2", bytes(pads.size() / 2, 'q')};
+  std::vector<std::string> before;
+  for (auto& b : bufs) before.push_back(scan_text(R.r, nullptr, b));
+  static const uint32_t chunk_sets[][3] = {{65536, 0, 0}, {4096, 0, 0}, {1, 65535, 65536}, {1000, 0, 0}};
+  for (int how = 0; how < 6; how++)
+  {
+    Rules L;
+    int rc;
+    const char* what;
+    if (how == 0)
+    {
+      what = "an in-memory stream";
+      rc = ys_rules_load_mem((const uint8_t*) image.data(), image.size(), 0, nullptr, 0, &L.r);
+    }
+    else if (how <= 4)
+    {
+      what = "a pipe read in chunks";
+      int n = chunk_sets[how - 1][1] ? 3 : 1;
+      rc = ys_rules_load_mem((const uint8_t*) image.data(), image.size(), 1, chunk_sets[how - 1], n, &L.r);
+    }
+    else
+    {
+      what = "a file (yr_rules_save / yr_rules_load)";
+      char path[] = "/tmp/verif-c08s-XXXXXX";
+      int fd = mkstemp(path);
+      close(fd);
+      rc = ys_rules_save_file(R.r, path);
+      if (rc != 0)
+      {
+        unlink(path);
+        return strf("yr_rules_save returned %d", rc);
+      }
+      std::ifstream in(path, std::ios::binary);
+      std::stringstream ss;
+      ss << in.rdbuf();
+      if (ss.str() != image)
+      {
+        unlink(path);
+        return "yr_rules_save (file) and yr_rules_save_stream write different bytes";
+      }
+      rc = ys_rules_load_file(path, &L.r);
+      unlink(path);
+    }
+    ci.sub_evals++;
+    if (rc != 0 || !L.r)
+      return strf("a correctly written image whose section %d is %u bytes long is rejected (error %d) when loaded from %s", pool,
+                  secs[pool], rc, what);
+    for (size_t i = 0; i < bufs.size(); i++)
+      if (scan_text(L.r, nullptr, bufs[i]) != before[i])
+        return strf("rules loaded from %s (section %d = %u bytes) scan buffer %zu differently", what, pool, secs[pool], i);
+  }
+  ci.nontrivial = true;
+  ci.classes.push_back("section-size-at-unit-multiple");
+  return "";
+}
+
 std::vector<FixedCase> fixed_cases()
 {
   std::vector<FixedCase> v;
+  for (uint32_t target : {65536u, 131072u, 4096u * 5, 1024u * 7})
+    for (int delta : {0, -1, 1})
+      v.push_back({strf("pool-section-%u%+d", target, delta), [=](CaseInfo& ci) { return sized_pool_case(ci, target, delta); }, ""});
   {
     // known finding: a rules-level string redefinition makes the next save abort
     GSet gs;
